@@ -145,10 +145,28 @@ def _hexcolon(rng: Any, n: int) -> str:
 
 
 def _name(rng: Any) -> str:
+    """Device friendly name: up to 30 ISO 8859-1 characters. A trailing NUL is indistinguishable from the padding of the
+    field (both xknx codec directions drop it), so judged names never END in NUL; NULs and other control characters
+    elsewhere in the field are octets the encoder puts on the wire unchanged and are generated."""
     n = rng.choice((0, 1, 5, 29, 30, rng.randrange(31)))
-    # ISO 8859-1, no NUL (NUL is the padding octet of the field)
     chars = [chr(rng.choice((rng.randrange(0x20, 0x7F), rng.randrange(0xA0, 0x100), rng.randrange(1, 0x100)))) for _ in range(n)]
-    return "".join(chars)
+    r = rng.random()
+    if n and r < 0.12:
+        chars[rng.randrange(n)] = "\0"  # embedded NUL
+    elif n and r < 0.18:
+        chars[0] = "\0"  # leading NUL
+    elif n and r < 0.24:
+        for _ in range(rng.randrange(1, 4)):
+            chars[rng.randrange(n)] = chr(rng.choice((0, 1, 7, 9, 10, 13, 0x1B, 0x7F, 0x80, 0x9F)))  # control characters
+    elif r < 0.28:
+        chars = ["\xff"] * n
+    elif n >= 3 and r < 0.32:
+        chars[1] = "\0"
+        chars[2] = "\0"  # NUL run in the middle
+    name = "".join(chars)
+    while name.endswith("\0"):
+        name = name[:-1] + chr(rng.randrange(1, 0x100))
+    return name
 
 
 def _status(rng: Any) -> ErrorCode:
@@ -388,6 +406,12 @@ def odd_length_variants(rng: Any) -> list[tuple[str, Any]]:
     body = DescriptionResponse()
     body.dibs = [dib]
     out.append(("DIBGeneric-odd-data", body))
+    # a name ending in NUL (incl. NUL at position 29 of a full field) cannot be told from padding: recorded, not judged
+    dev = gen_dib(rng, "device")
+    dev.name = rng.choice(("ab\0", "\0", "x" * 29 + "\0", "ab\0\0"))
+    body2 = DescriptionResponse()
+    body2.dibs = [dev]
+    out.append(("DIBDeviceInformation-name-trailing-NUL", body2))
     return out
 
 
